@@ -604,8 +604,23 @@ func (c *client) Send(req *simpleRequest) {
 	select {
 	case <-c.quit:
 		req.SetResponse(newError(backendExited))
+		return
 	default:
-		c.pendingReqs <- req
+	}
+
+	select {
+	case c.pendingReqs <- req:
+	case <-c.quit:
+		req.SetResponse(newError(backendExited))
+		return
+	}
+
+	// The client may have quit and drained its queues between the check
+	// above and the enqueue, in which case nobody would answer the request.
+	select {
+	case <-c.quit:
+		c.drainPendingRequests()
+	default:
 	}
 }
 
@@ -640,6 +655,8 @@ func (c *client) loopWrite() {
 
 		select {
 		case <-c.quit:
+			// the request has left the pending queue, answer it here.
+			req.SetResponse(newError(backendExited))
 			return
 		case c.processingReqs <- req:
 		}
@@ -661,8 +678,14 @@ func (c *client) loopRead() {
 			return
 		}
 
-		req := <-c.processingReqs
-		c.handleResp(req, resp)
+		// the writer may have quit before handing over the request
+		// that this response belongs to.
+		select {
+		case req := <-c.processingReqs:
+			c.handleResp(req, resp)
+		case <-c.quit:
+			return
+		}
 	}
 }
 
@@ -701,6 +724,17 @@ func (c *client) drainRequests() {
 		case req := <-c.pendingReqs:
 			req.SetResponse(newError(backendExited))
 		case req := <-c.processingReqs:
+			req.SetResponse(newError(backendExited))
+		default:
+			return
+		}
+	}
+}
+
+func (c *client) drainPendingRequests() {
+	for {
+		select {
+		case req := <-c.pendingReqs:
 			req.SetResponse(newError(backendExited))
 		default:
 			return
